@@ -763,6 +763,8 @@ class Interp:
                 value = self._taken_branch(value, st, fr)
             self._constant_flag(st, target.id, value)
             self._display_length(st, target.id, value)
+            if self._never_none(value, fr):
+                st.facts[('isnone', target.id)] = False  # a fresh instance, a class
             member = self._enum_member(value, fr.frame.fn)
             if member is not None:
                 st.facts[('enumval', target.id)] = member
@@ -2063,6 +2065,9 @@ class Interp:
                     if other == 'GeneratorExit' or (same_self and other.startswith('self.')):
                         first, second = sorted((other, new))
                         st.facts[('is', first, second)] = value
+        for name, (arg, _index) in bindings.items():
+            if self._never_none(arg, fr):
+                st.facts[('isnone', name)] = False  # `type(err)`, a fresh instance
         self.stats['functions'].add(callee.key())
         self._helper_stack.append(callee.key())
         results = []
@@ -2926,6 +2931,25 @@ class Interp:
             results.append((False, other))
         return results
 
+    def _never_none(self, expr, fr: DynFrame) -> bool:
+        """``type(x)`` and the construction of an instance of a class of the package are
+        never None"""
+        if not isinstance(expr, ast.Call) or not isinstance(expr.func,
+                                                            (ast.Name, ast.Attribute)):
+            return False
+        if isinstance(expr.func, ast.Name) and expr.func.id == 'type' and \
+                len(expr.args) == 1 and not expr.keywords:
+            try:
+                return self.p.resolve_dotted(fr.frame.fn.module, expr.func) in (
+                    None, ('ext', 'builtins.type'), ('ext', 'type'))
+            except Exception:
+                return False
+        try:
+            binding = self.p.resolve_dotted(fr.frame.fn.module, expr.func)
+        except Exception:
+            return False
+        return bool(binding) and binding[0] == 'class'
+
     def _enum_member(self, expr, fn):
         """(class, member) when ``expr`` names a member of an enumeration of the package
         (``Colour.RED``), as written in function ``fn``"""
@@ -3209,6 +3233,12 @@ class Interp:
                 saved = s.facts
                 s.facts = {}
                 same_self = self._same_self(expr, fr, callee)
+                for param, arg in zip(params, expr.args):
+                    if not isinstance(arg, ast.Starred) and self._never_none(arg, fr):
+                        s.facts[('isnone', param.arg)] = False
+                for kw in expr.keywords:
+                    if kw.arg in by_name and self._never_none(kw.value, fr):
+                        s.facts[('isnone', kw.arg)] = False
                 for key_, value in saved.items():
                     for old, new in renames:
                         if key_[0] == 'isnone' and key_[1] == old:
